@@ -7,6 +7,7 @@ FUNCTIONS = [c.qualname for c in _r.CONTRACTS if not c.trusted]
 ENGINE = RefsEngine
 RAC = "rac/c04.py"
 RAC_BUDGET = {"quick": 60, "thorough": 300}
+RAC_MIN = {"quick": 1575, "thorough": 1575}      # fewer run-time evaluations than this = the harness skipped its work: checker broken, not "held"
 DESIGN_REF = "DESIGN.md section 4, C04"
 TECHNIQUE = "contract-based deductive verification (pyvc: quantifier-free VCs over uninterpreted Python operators, z3) + differential run-time contracts on the compiled extension"
 TRUSTED = [
